@@ -221,6 +221,46 @@ var c01Terms = func() []string {
 	return out
 }()
 
+var c01KindLits = func() map[string][]string {
+	m := map[string][]string{}
+	for _, v := range poolAll {
+		if l, ok := v.lit(); ok && v.isSystem() {
+			k := v.K
+			if k == "Integer" || k == "Decimal" {
+				m["num"] = append(m["num"], l)
+			}
+			m[k] = append(m[k], l)
+		}
+	}
+	m["Integer"] = append(m["Integer"], "(0 - 2147483647 - 1)", "(0 - 1)", "(0 - 2147483647)")
+	m["num"] = append(m["num"], "(0 - 2147483647 - 1)", "(0 - 1)", "(0 - 1.5)", "(1/3)", "0.0000000001")
+	return m
+}()
+
+// c01KindTerms: boundary literals of the kind of a well-typed example term (nil when
+// the example is not a literal).
+func c01KindTerms(example string) []string {
+	switch {
+	case example == "":
+		return nil
+	case example[0] == '\'':
+		return c01KindLits["String"]
+	case example[0] == '@' && strings.HasPrefix(example, "@T"):
+		return c01KindLits["Time"]
+	case example[0] == '@' && strings.Contains(example, "T"):
+		return c01KindLits["DateTime"]
+	case example[0] == '@':
+		return c01KindLits["Date"]
+	case example[0] >= '0' && example[0] <= '9' && strings.Contains(example, "'"):
+		return c01KindLits["Quantity"]
+	case example[0] >= '0' && example[0] <= '9' && strings.Contains(example, "."):
+		return c01KindLits["num"]
+	case example[0] >= '0' && example[0] <= '9':
+		return c01KindLits["Integer"]
+	}
+	return nil
+}
+
 var c01FnNames = func() []fnInfo {
 	fs := tableFuncs()
 	// names outside the table, to exercise resolution failures
@@ -238,8 +278,24 @@ func c01GenFn(s Src) c01FnCase {
 	c := c01FnCase{Fn: f.Name, Recv: pickOne(s, c01Terms), Opts: c01GenOpts(s)}
 	c.Opts.Compile = pickOne(s, []int{1, 1, 1, 0, 2})
 	c.Opts.Vars = true
+	// half the cases are kind-directed: receiver and arguments drawn from the boundary
+	// pool of the kind the specification's well-typed example has, so that the body
+	// of the function (not only its type checks) sees the boundary values
+	spec, known := fnSpecByName[f.Name]
+	directed := s.Prob(50) && known
+	if directed {
+		if ts := c01KindTerms(spec.Recv); ts != nil {
+			c.Recv = pickOne(s, ts)
+		}
+	}
 	for i := 0; i < n; i++ {
 		a := pickOne(s, c01Terms)
+		if directed && i < len(spec.Args) {
+			if ts := c01KindTerms(spec.Args[i]); ts != nil {
+				c.Args = append(c.Args, pickOne(s, ts))
+				continue
+			}
+		}
 		if s.Prob(25) {
 			a = pickOne(s, []string{"$this", "$this = 1", "$this.length() > 1", "use = 'official'", "true", "false", "{}", "1", "-1", "2147483647", "(0 - 2147483647 - 1)", "'.'", "'('", "''", "'é'", "given", "Patient.name", "%ints", "1 > 2", "$this > 1", "'mg'", "'days'", "'http://example.org/a'"})
 		}
